@@ -15,7 +15,8 @@ class StoreModel:
                 if dc and dc[1] == "S":
                     self.ops.setdefault(dc[0], []).append((f, bb, t))
         self.insert_fns = {f.name for f, _, _ in self.ops.get("insert", [])}
-        self.remove_fns = {f.name for f, _, _ in self.ops.get("remove", [])}
+        # by-key removals: `remove`, and the conditional `remove_if` / `remove_if_mut` (Some(..) iff an entry was taken out)
+        self.remove_fns = {f.name for m_ in ("remove", "remove_if", "remove_if_mut") for f, _, _ in self.ops.get(m_, [])}
         self.lookup_sites = [x for m in ("get", "get_mut", "contains_key") for x in self.ops.get(m, [])]
         # presence predicates: bool functions with one store lookup keyed by a parameter, judged on path-sensitive paths
         # (combinators, `matches!` with a guard, explicit branches alike):
